@@ -152,6 +152,11 @@ func init() {
 			"Range over a slice visits in index order, each element once (Go semantics). Behaviour of callbacks and map iteration order are outside.",
 		Rules: []Rule{
 			{ID: "C14.R1", Doc: "loop shape: one range over the receiver's own spine, no early exit; exactly the family's action per selected element, none otherwise", Run: c14Run},
+			{ID: "C14.R3", Doc: "every container that can be stored is registered (Ego non-nil on every path of its constructor), so getVal-based views and TypeOf agree on containers (= C19.R2)", Run: func(c *Ctx) {
+				c.R.Floor("C14.R3", runAs(c, "C14.R3", c19R2, func(o *Obligation) bool {
+					return strings.HasPrefix(o.Construct, "alloc/") || strings.HasPrefix(o.Construct, "ptr-store/")
+				}), 6)
+			}},
 			{ID: "C14.R2", Doc: "kind test equals the kind demanded by the signature (or All* name table); AllX returns false exactly on a non-K element and true after the loop", Run: func(c *Ctx) {}},
 		},
 	})
